@@ -128,6 +128,7 @@ ExtendRel(a, b) ==
         [] cl = "mutations_but_node" -> /\ Len(a.muts) = Len(b.muts)
                                         /\ \A i \in 1..Len(a.muts) : a.muts[i].site = b.muts[i].site /\ a.muts[i].der = b.muts[i].der
                                                                      /\ a.muts[i].tag = b.muts[i].tag /\ a.muts[i].time = b.muts[i].time
-        [] cl = "genotypes" -> \A s \in 0..(Len(a.sites) - 1) : \A u \in SamplesOf(a) : StateOf(b, s, u) = StateOf(a, s, u)
+        \* every sample's genotype is kept, including "missing" for samples isolated at the site
+        [] cl = "genotypes" -> \A s \in 0..(Len(a.sites) - 1) : \A u \in SamplesOf(a) : AlleleOf(b, s, u, TRUE) = AlleleOf(a, s, u, TRUE)
   }
 =============================================================================
